@@ -227,6 +227,25 @@ def run(ck, facts):
         if nv < 2:
             ck.bad("R1", label + "/visit_param-floor", "only %d visit_param calls found (2 counted: self, params)" % nv, C.loc(f))
 
+    # JS struct template: a struct's own field is always reached through the instance (`this.#f`, `structObj.f`), never as a bare identifier -- the lifetime-edge getters are
+    # ordinary class members, a bare `f._fieldsForLifetimeA` is a ReferenceError the first time a method borrowing from a nested struct parameter is called
+    import tmpl as _t
+    fl_js = _t.strip_stmts(_t.flat_file("js/struct.js.jinja", resolve_includes=False))
+    nuse, bare = 0, []
+    for m_ in re.finditer(r"⟦\s*(?:\w+\.)?field_name\s*⟧", fl_js):
+        pre, post = fl_js[:m_.start()].rstrip(" "), fl_js[m_.end():].lstrip(" ")
+        nuse += 1
+        line = fl_js[fl_js.rfind("\n", 0, m_.start()) + 1:m_.start()]
+        in_str = line.count('"') % 2 == 1 or line.count("'") % 2 == 1 or line.count("`") % 2 == 1
+        if pre.endswith("..."):
+            bare.append(fl_js[max(0, m_.start() - 10):m_.end() + 12].strip())
+        elif pre[-1:] in "#.\"'`" or in_str or re.search(r"\b(get|set|const|let|static|var)$", pre) or re.match(r"\??\s*:", post) or pre[-1:] in "\n{;":
+            continue
+        else:
+            bare.append(fl_js[max(0, m_.start() - 10):m_.end() + 12].strip())
+    ck.expect(nuse >= 10 and not bare, "R6", "js/struct.js.jinja/fields-through-instance", "%d uses of a field name" % nuse,
+              "the JS struct template uses a field as a bare identifier (%s): inside the class that name is not in scope, the lifetime-edge getter throws instead of listing what the struct borrows from" % bare[:2], "tool/templates/js/struct.js.jinja")
+
     # ---------------- R2
     tl = core.fn("hir::types::Type::lifetimes")
     mt = next((n for n in C.walk(C.fn_body(tl)) if n.get("k") == "match" and (n.get("sadt") or "").endswith("hir::types::Type")), None)
